@@ -4,6 +4,7 @@ from __future__ import annotations
 import fnmatch
 import glob
 import importlib
+import importlib.util
 import json
 import multiprocessing as mp
 import os
@@ -23,7 +24,7 @@ KNOWN_FILE = os.environ.get("VERIF_KNOWN") or os.path.join(ROOT, "known_findings
 
 
 def load_contracts():
-    for f in sorted(glob.glob(os.path.join(ROOT, "contracts", "C*.py")) + glob.glob(os.path.join(ROOT, "contracts", "proto*.py"))):
+    for f in sorted(glob.glob(os.path.join(ROOT, "contracts", "C*.py")) + glob.glob(os.path.join(ROOT, "contracts", "proto*.py")) + glob.glob(os.path.join(ROOT, "contracts", "XC_*.py"))):
         importlib.import_module("contracts." + os.path.basename(f)[:-3])
 
 
@@ -55,7 +56,7 @@ def _run_task(arg):
         c = REGISTRY[key]
         cfg = Config()
         if tier == "thorough":
-            cfg.oblig_timeout_ms = 60000
+            cfg.oblig_timeout_ms = 180000
         from .engine import Explorer
 
         if getattr(c, "static_only", False):
@@ -85,11 +86,52 @@ def _run_task(arg):
             r = t.run()
         finally:
             Explorer.__init__ = orig_init
-        return r.__dict__
+        d = dict(r.__dict__)
+        # results cross a process boundary: keep only plain data (models may hold solver objects)
+        d["obligations"] = [{k: (_jsonable(v) if k in ("model", "detail", "path") else v) for k, v in o.items()} for o in d["obligations"]]
+        return d
     except KeyError as e:
         return {"name": f"{pid}/{key}", "target": key, "status": "stale", "message": f"not found: {e}", "obligations": [], "paths": 0, "solver_time": 0.0, "wall": 0.0, "source_hash": None, "used_contracts": [], "inlined": [], "queries": 0, "property": pid}
     except Exception as e:  # noqa: BLE001
         return {"name": f"{pid}/{key}", "target": key, "status": "error", "message": f"{type(e).__name__}: {e}\n{traceback.format_exc()}", "obligations": [], "paths": 0, "solver_time": 0.0, "wall": 0.0, "source_hash": None, "used_contracts": [], "inlined": [], "queries": 0, "property": pid}
+
+
+def _run_bounded(pid, tier, seed, q):
+    """Child process: run bounded/<pid>.run and send plain data back."""
+    try:
+        bmod = importlib.import_module(f"bounded.{pid}")
+        r = bmod.run(tier=tier, seed=seed)
+        info = dict(getattr(bmod, "INFORMATIONAL", {}))
+        q.put(("ok", (json.loads(json.dumps(r, default=repr)), info)))
+    except BaseException as e:  # noqa: BLE001
+        q.put(("error", f"{type(e).__name__}: {e}\n{traceback.format_exc()}"))
+
+
+def _run_xcheck(arg):
+    key, n, seed = arg
+    try:
+        load_contracts()
+        from . import xcheck
+
+        return key, xcheck.xcheck_contract(key, n, seed)
+    except Exception as e:  # noqa: BLE001
+        return key, {"status": "error", "cases": 0, "detail": f"{type(e).__name__}: {e}\n{traceback.format_exc()}"[:1500]}
+
+
+def run_xcheck(pid, tier, seed, jobs=None):
+    """Concrete cross-check of the encoding against CPython (pyvc/xcheck.py): the property's own functions under
+    contract whose inputs are plain data, plus the builtin-model self-test programs (property id XC)."""
+    load_contracts()
+    keys = [k for k, c in REGISTRY.items() if not c.assumed and (pid in props_of(c) or "XC" in props_of(c))]
+    if not keys:
+        return {}
+    n_own, n_xc = (40, 25) if tier == "thorough" else (6, 3)
+    # the self-test programs get a seed that differs per property, so the 20 checks sample different inputs
+    args = [(k, n_xc if "XC" in props_of(REGISTRY[k]) else n_own, seed * 1000 + sum(map(ord, pid))) for k in keys]
+    jobs = jobs or min(16, len(args), os.cpu_count() or 4)
+    ctx = mp.get_context("fork")
+    with ctx.Pool(jobs) as pool:
+        return dict(pool.map(_run_xcheck, args, chunksize=1))
 
 
 def run_deductive(pid, tier, known, jobs=None, only=None):
@@ -219,8 +261,21 @@ def check_property(pid, tier="quick", seed=0, manifest_level="proof", jobs=None,
     active_known = [k for k in known if "fixed" not in k]
     lines = []
     violations = []
+    # the bounded stand-in runs in its own process, concurrently with the deductive pool
+    bproc = bq = None
+    try:
+        importlib.util.find_spec(f"bounded.{pid}")
+        has_bounded = importlib.util.find_spec(f"bounded.{pid}") is not None
+    except ModuleNotFoundError:
+        has_bounded = False
+    if has_bounded and not only:
+        ctx = mp.get_context("fork")
+        bq = ctx.Queue()
+        bproc = ctx.Process(target=_run_bounded, args=(pid, tier, seed, bq))
+        bproc.start()
     results = run_deductive(pid, tier, active_known, jobs, only)
     load_contracts()
+    xres = run_xcheck(pid, tier, seed, jobs) if not only else {}
     n_obl = n_dis = 0
     backends = {}
     solver_time = 0.0
@@ -280,15 +335,18 @@ def check_property(pid, tier="quick", seed=0, manifest_level="proof", jobs=None,
                 lines.append(f"UNDECIDED obligation={name} ({','.join(sorted(kinds))})")
     # bounded stand-in
     bounded = None
-    try:
-        bmod = importlib.import_module(f"bounded.{pid}")
-    except ModuleNotFoundError as e:
-        if f"bounded.{pid}" not in str(e):
-            raise
-        bmod = None
-    if bmod is not None and not only:
-        bounded = bmod.run(tier=tier, seed=seed)
-        info = getattr(bmod, "INFORMATIONAL", {})
+    bounded_error = None
+    if bproc is not None:
+        try:
+            kind, payload = bq.get(timeout=3600 * 3)
+        except Exception as e:  # noqa: BLE001
+            kind, payload = "error", f"bounded stand-in did not report: {type(e).__name__}: {e}"
+        bproc.join(30)
+        if kind == "ok":
+            bounded, info = payload
+        else:
+            bounded_error = payload
+    if bounded is not None:
         for chk in bounded.get("checks", []):
             if chk["name"] in info:
                 chk["informational"] = info[chk["name"]]
@@ -298,7 +356,7 @@ def check_property(pid, tier="quick", seed=0, manifest_level="proof", jobs=None,
             for fail in chk.get("failures", []):
                 kf = match_known_bounded(active_known, chk["name"], fail)
                 if kf is not None:
-                    known_hits.setdefault(f"bounded:{chk['name']}", kf["id"])
+                    known_hits.setdefault(f"bounded:{chk['name']}:{kf['id']}", kf["id"])
                     continue
                 fn = os.path.join("replay", pid, f"bounded__{chk['name']}__{len(violations)}.json".replace("/", "_"))
                 with open(os.path.join(ROOT, fn), "w", encoding="utf-8") as f:
@@ -346,6 +404,17 @@ def check_property(pid, tier="quick", seed=0, manifest_level="proof", jobs=None,
         for chk in bounded.get("checks", []):
             for smp in chk.get("samples", [])[:2]:
                 cov["samples"].append({"bounded_check": chk["name"], "case": _jsonable(smp)})
+    xbad = {k: v for k, v in xres.items() if v["status"] in ("mismatch", "error")}
+    if xbad:
+        k0 = sorted(xbad)[0]
+        checker_broken = (checker_broken + "; " if checker_broken else "") + f"encoding cross-check against CPython failed for {k0}: {json.dumps(xbad[k0], default=repr)[:1500]}"
+    cov["encoding_cross_check"] = {
+        "what": "real functions (and the builtin-model self-test programs of spec/xcheck_cases.py) run in CPython on sampled concrete inputs and symbolically with the inputs equated to the same constants; CPython's outcome must be one of the outcomes pyvc explores",
+        "functions_checked": sorted(k for k, v in xres.items() if v["status"] == "ok"),
+        "cases": sum(v.get("cases", 0) for v in xres.values()),
+        "not_cross_checkable": {k: v.get("detail", "")[:160] for k, v in sorted(xres.items()) if v["status"] == "skipped"},
+        "mismatches": xbad,
+    }
     ev = {
         "property_id": pid,
         "tier": tier,
@@ -360,6 +429,8 @@ def check_property(pid, tier="quick", seed=0, manifest_level="proof", jobs=None,
         os.makedirs(os.path.join(ROOT, "evidence"), exist_ok=True)
         with open(os.path.join(ROOT, "evidence", f"{pid}.json"), "w", encoding="utf-8") as f:
             json.dump(ev, f, indent=1, default=repr)
+    if bounded_error:
+        checker_broken = (checker_broken + "; " if checker_broken else "") + "bounded stand-in crashed: " + str(bounded_error)[:2000]
     code = 1 if violations else (3 if checker_broken or any(r["status"] == "error" for r in results) else 0)
     if checker_broken:
         lines.append(f"CHECKER-BROKEN {checker_broken}")
@@ -390,9 +461,9 @@ def match_known_bounded(known, check_name, fail):
 
 def trusted_base(results):
     tb = [
-        "pyvc: the AST->SMT encoding of the Python subset (DESIGN.md §3), cross-checked against CPython on concrete inputs (xcheck)",
+        "pyvc: the AST->SMT encoding of the Python subset (DESIGN.md §3); cross-checked against CPython on sampled concrete inputs for the functions listed under coverage.encoding_cross_check (functions with opaque children are not cross-checkable that way)",
         "z3 5.1 / cvc5 soundness",
-        "builtin models (slice.indices, range, list methods, floor division, int/round on rationals) — cross-checked against CPython on every run",
+        "builtin models (slice.indices, range, list methods, floor division, int/round on rationals, bit operations ...) — exercised by the self-test programs of spec/xcheck_cases.py against CPython on every run (sampled, seeded per property)",
         "machine floats in rounding idioms treated as exact rationals (operands < 2^26)",
         "logger/warnings calls dropped",
     ]
